@@ -8,6 +8,7 @@ import (
 	"os"
 	"sort"
 	"strings"
+	"sync"
 	"sync/atomic"
 	"testing"
 	"time"
@@ -346,14 +347,47 @@ func (in *c24Inst) enabled(cfg []c24Agg) []c24Event {
 
 type c24Finding struct{ key, desc string }
 
+type c24Report struct {
+	rank   [6]int
+	desc   string
+	replay any
+	st     [c24NTx]int
+	cfg    []c24Agg
+	seq    []c24Event
+}
+
+func c24Less(a, b [6]int) bool {
+	for i := range a {
+		if a[i] != b[i] {
+			return a[i] < b[i]
+		}
+	}
+	return false
+}
+
+// refOf: transactions referenced by the configuration and the event sequence.
+func (in *c24Inst) refOf(cfg []c24Agg, seq []c24Event) uint8 {
+	var ref uint8
+	for _, a := range cfg {
+		ref |= a.set
+	}
+	for _, e := range seq {
+		if e.kind != "expire" && e.kind != "retry" {
+			ref |= e.mask
+		}
+	}
+	return ref
+}
+
 // c24Runs shrinks the alphabet where a dimension is not read by the code under
 // the event: the commitments/responses classes are read by expiry only, so every
 // other event is enumerated with all proposals in the first class; timestamps
 // are read by expiry and by the announcement guard only, so retry / reset /
 // overflow / cutoff are enumerated with one age (the first) for every proposal
-// that shares no transaction with another one (for sharing proposals the ages
-// decide who owns the shared transaction and all admitted combinations stay).
-func c24Runs(cfg []c24Agg, e c24Event) bool {
+// that shares no transaction with another one, the guard event with two (first
+// and youngest); for sharing proposals the ages decide who owns the shared
+// transaction and all admitted combinations stay.
+func c24Runs(t *c24Tier, cfg []c24Agg, e c24Event) bool {
 	if e.kind == "expire" {
 		return true
 	}
@@ -361,8 +395,8 @@ func c24Runs(cfg []c24Agg, e c24Event) bool {
 		if a.comp != 0 {
 			return false
 		}
-		if e.kind == "defer-dup" || a.age == 0 {
-			continue
+		if a.age == 0 || (e.kind == "defer-dup" && a.age == len(t.ages)-1) {
+			continue // the guard event also needs the youngest age: it is what the guard protects
 		}
 		shares := false
 		for j, b := range cfg {
@@ -699,7 +733,7 @@ func TestMC_C24(t *testing.T) {
 			}
 			in.install(cfg)
 			for _, e := range in.enabled(cfg) {
-				if !c24Runs(cfg, e) {
+				if !c24Runs(tier, cfg, e) {
 					continue
 				}
 				ref := union
@@ -729,6 +763,8 @@ func TestMC_C24(t *testing.T) {
 
 	var sharedLive, orderSensitive, completeKept, agedKept, resetExcluded, overflowQueued, dupGuarded atomic.Int64
 	var sampled atomic.Int64
+	var fmu sync.Mutex
+	found := map[string]*c24Report{}
 	complete := c.ParallelN(nVec, "transaction state vectors", func(w, vi int) {
 		d := verifmc.Digits(radices, int64(vi), nil)
 		var st [c24NTx]int
@@ -760,7 +796,9 @@ func TestMC_C24(t *testing.T) {
 			}
 			return map[string]any{"fixture": "newMCNode(mcNet7,0)", "tx_states": vec, "threshold": in.base, "proposals": aggs, "events": es, "queue_after": c24Mask(q)}
 		}
+		ci, evIndex := 0, 0
 		runCase := func(cfg []c24Agg, cs string, prefix []c24Event, e c24Event) {
+			evIndex++
 			in.install(cfg)
 			for _, pe := range prefix {
 				in.apply(cfg, pe, false)
@@ -778,7 +816,14 @@ func TestMC_C24(t *testing.T) {
 			c.Distinct(key)
 			c.Outcome(outcome)
 			for _, f := range fs {
-				c.Violation(f.key, f.desc+" — "+cs+" tx="+vec+" events="+fmt.Sprint(seq), replay(cfg, seq, q))
+				// keep the smallest failing case per class (deterministic report)
+				rank := [6]int{len(cfg), c24Pop(in.refOf(cfg, seq)), c24Pop(nonDefault), len(seq), vi, ci*4096 + evIndex}
+				fmu.Lock()
+				if old, ok := found[f.key]; !ok || c24Less(rank, old.rank) {
+					found[f.key] = &c24Report{rank: rank, desc: f.desc + " — " + cs + " tx=" + vec + " events=" + fmt.Sprint(seq), replay: replay(cfg, seq, q),
+						st: st, cfg: append([]c24Agg(nil), cfg...), seq: seq}
+				}
+				fmu.Unlock()
 			}
 			// coverage facts used by the vacuity guards
 			aliveAfter, _ := in.liveMask()
@@ -839,7 +884,8 @@ func TestMC_C24(t *testing.T) {
 				}
 			}
 		}
-		for ci, cfg := range configs {
+		for cj, cfg := range configs {
+			ci, evIndex = cj, 0
 			if ci%64 == 0 && c.Expired("configurations of one state vector") {
 				return
 			}
@@ -851,7 +897,7 @@ func TestMC_C24(t *testing.T) {
 			evs := in.enabled(cfg)
 			cs := c24CfgString(tier, cfg)
 			for _, e := range evs {
-				if !c24Runs(cfg, e) {
+				if !c24Runs(tier, cfg, e) {
 					continue
 				}
 				ref := union
@@ -873,7 +919,7 @@ func TestMC_C24(t *testing.T) {
 					c.Require(false, "instance reuse is unsound: %v", err)
 				}
 				for _, e2 := range evs2 {
-					if !c24Runs(cfg, e2) {
+					if !c24Runs(tier, cfg, e2) {
 						continue
 					}
 					ref2 := ref
@@ -888,6 +934,34 @@ func TestMC_C24(t *testing.T) {
 			}
 		}
 	})
+	// report the smallest case of every violated class, after re-executing it
+	// five times on fresh nodes (determinism gate)
+	keys := make([]string, 0, len(found))
+	for k := range found {
+		keys = append(keys, k)
+	}
+	sort.Strings(keys)
+	for _, k := range keys {
+		r := found[k]
+		c.ViolationChecked(k, r.desc, r.replay, func() bool {
+			in, err := c24NewInst(tier, r.st)
+			if err != nil {
+				return false
+			}
+			defer in.close()
+			in.install(r.cfg)
+			for _, pe := range r.seq[:len(r.seq)-1] {
+				in.apply(r.cfg, pe, false)
+			}
+			fs, _, _ := in.apply(r.cfg, r.seq[len(r.seq)-1], true)
+			for _, f := range fs {
+				if f.key == k {
+					return true
+				}
+			}
+			return false
+		})
+	}
 	c.Set("retired_while_a_later_proposal_owns_a_shared_transaction", sharedLive.Load())
 	c.Set("finalized_listed_before_requeued", orderSensitive.Load())
 	c.Set("complete_aged_proposals_kept_by_expiry", completeKept.Load())
